@@ -100,8 +100,15 @@ class Interp:
                 left = right
             return res
         if isinstance(n, ast.BoolOp):
-            vals = [self.ev(v) for v in n.values]
-            return all(vals) if isinstance(n.op, ast.And) else any(vals)
+            # Python semantics: left to right, short-circuit
+            res = isinstance(n.op, ast.And)
+            for v in n.values:
+                res = self.ev(v)
+                if isinstance(n.op, ast.And) and not res:
+                    return res
+                if isinstance(n.op, ast.Or) and res:
+                    return res
+            return res
         if isinstance(n, ast.UnaryOp):
             v = self.ev(n.operand)
             if isinstance(n.op, ast.USub):
